@@ -1,7 +1,230 @@
-//! C09 driver (stub: not built yet).
-use crate::trace::Args;
+//! C09 driver: multiprecision gcd / extended gcd / modular inverse (arith_gcd.rs, and the ZmodN
+//! wrappers) on the operand shapes enumerated by spec/gcd/GcdShapes.tla.  Every event carries an
+//! independent Bezout witness (plain Euclid on 2048-bit integers) that spec/gcd/GcdTrace.tla verifies
+//! before judging what the code returned.  Nothing is judged here.
 
-pub fn run(_args: &Args) -> i32 {
-    eprintln!("driver c09 not built yet");
-    2
+use bnum::cast::CastFrom;
+use bnum::types::{I2048, U2048};
+use bnum::{BInt, BUint};
+use rand::rngs::StdRng;
+use rand::Rng;
+use serde_json::{json, Value};
+
+use yamaquasi::arith_gcd;
+use yamaquasi::arith_montgomery::{MInt, ZmodN};
+
+use crate::gen::{rand_below, rand_bits, rng_for, Uint};
+use crate::trace::*;
+
+fn merge(mut base: Value, r: Result<Value, Value>) -> Value {
+    let extra = match r {
+        Ok(v) => v,
+        Err(v) => v,
+    };
+    if let (Some(b), Some(e)) = (base.as_object_mut(), extra.as_object()) {
+        for (k, v) in e {
+            b.insert(k.clone(), v.clone());
+        }
+    }
+    base
+}
+
+/// independent extended Euclid: (g, u, v) with u a + v b = g
+fn xgcd(a: &Uint, b: &Uint) -> (Uint, I2048, I2048) {
+    let (mut r0, mut r1) = (U2048::cast_from(*a), U2048::cast_from(*b));
+    let (mut s0, mut s1) = (I2048::ONE, I2048::ZERO);
+    let (mut t0, mut t1) = (I2048::ZERO, I2048::ONE);
+    while !r1.is_zero() {
+        let q = r0 / r1;
+        let r2 = r0 - q * r1;
+        let qi = I2048::cast_from(q);
+        let s2 = s0 - qi * s1;
+        let t2 = t0 - qi * t1;
+        (r0, r1) = (r1, r2);
+        (s0, s1) = (s1, s2);
+        (t0, t1) = (t1, t2);
+    }
+    (Uint::cast_from(r0), s0, t0)
+}
+
+fn witness(a: &Uint, b: &Uint) -> Value {
+    let (g, u, v) = xgcd(a, b);
+    json!({"wg": dn(&g), "wu": di(&u), "wv": di(&v)})
+}
+
+fn narrow<const N: usize>(x: &Uint) -> BUint<N> {
+    let mut d = [0u64; N];
+    d.copy_from_slice(&x.digits()[..N]);
+    debug_assert!(x.digits()[N..].iter().all(|&w| w == 0));
+    BUint::from_digits(d)
+}
+
+/// continued-fraction pair: quotient sizes drawn by `qbits`; widths about (wa, wb), wa >= wb, at most maxbits
+fn cf_pair(rng: &mut StdRng, wa: u32, wb: u32, g: Uint, qbits: &mut dyn FnMut(&mut StdRng) -> u32) -> (Uint, Uint) {
+    let (mut x, mut y) = (g, Uint::ZERO);
+    loop {
+        let qb = qbits(rng);
+        if x.bits() + qb > wb {
+            break;
+        }
+        let q = rand_bits(rng, qb);
+        (x, y) = (q * x + y, x);
+    }
+    // last quotient gives the width difference
+    let qb = std::cmp::max(wa.saturating_sub(x.bits()), 1);
+    let q = rand_bits(rng, qb);
+    let a = q * x + y;
+    (a, x)
+}
+
+fn make_pair(rng: &mut StdRng, rel: &str, wa: u32, wb: u32, maxbits: u32) -> (Uint, Uint) {
+    let one = Uint::ONE;
+    let (a, b) = match rel {
+        "random" => (rand_bits(rng, wa), rand_bits(rng, wb)),
+        "equal" => {
+            let a = rand_bits(rng, wa);
+            (a, a)
+        }
+        "azero" => (Uint::ZERO, rand_bits(rng, wb)),
+        "bzero" => (rand_bits(rng, wa), Uint::ZERO),
+        "bothzero" => (Uint::ZERO, Uint::ZERO),
+        "multiple" => {
+            let b = rand_bits(rng, wb);
+            let k = rand_bits(rng, std::cmp::max(wa.saturating_sub(wb), 1));
+            (b * k, b)
+        }
+        "adjacent" => {
+            let a = rand_bits(rng, wa);
+            (a, if a.is_zero() { a } else { a - one })
+        }
+        "fib" => cf_pair(rng, wa, wb, one, &mut |_| 1),
+        "cf_small" => {
+            let g = Uint::from(rng.gen_range(1u64..4));
+            cf_pair(rng, wa, wb, g, &mut |r| r.gen_range(1..=2))
+        }
+        "cf32" => cf_pair(rng, wa, wb, one, &mut |r| r.gen_range(30..=34)),
+        "cf36" => cf_pair(rng, wa, wb, one, &mut |r| r.gen_range(34..=38)),
+        "cf_mixed" => cf_pair(rng, wa, wb, one, &mut |r| match r.gen_range(0..6) {
+            0 => 1,
+            1 => r.gen_range(1..8),
+            2 => r.gen_range(20..40),
+            3 => r.gen_range(60..70),
+            4 => 64,
+            _ => r.gen_range(1..70),
+        }),
+        "common" | "commonsmall" => {
+            let m = std::cmp::min(wa, wb);
+            let gb = if rel == "common" { std::cmp::max(m / 2, 1) } else { std::cmp::min(m, rng.gen_range(2..12)) };
+            let g = rand_bits(rng, gb) | one;
+            let a1 = rand_bits(rng, std::cmp::max(wa.saturating_sub(gb), 1));
+            let b1 = rand_bits(rng, std::cmp::max(wb.saturating_sub(gb), 1));
+            (g * a1, g * b1)
+        }
+        "ones" => ((one << wa) - one, (one << wb) - one),
+        "lowzero" => {
+            let k = rng.gen_range(0..wa);
+            let a = rand_bits(rng, wa - k) << k;
+            let k2 = if rng.gen::<bool>() { rng.gen_range(0..wb) } else { 0 };
+            (a, rand_bits(rng, wb - k2) << k2)
+        }
+        _ => panic!("unknown relation {}", rel),
+    };
+    // stay inside the supported operand size
+    let clamp = |x: Uint| if x.bits() > maxbits { x >> (x.bits() - maxbits) } else { x };
+    (clamp(a), clamp(b))
+}
+
+/// returns false if a call did not come back (the pair is then not used for further calls)
+fn run_pair<const N: usize>(out: &mut Out, case: &str, sh: &Value, a: &Uint, b: &Uint, with_inv: bool) -> bool {
+    let (an, bn) = (narrow::<N>(a), narrow::<N>(b));
+    let base = json!({"op": "gcd", "case": case, "shape": sh, "N": N, "a": dn(a), "b": dn(b),
+                      "ad": a.to_string(), "bd": b.to_string()});
+    // deadline: a call takes well under a millisecond; a loop that makes no progress is an outcome
+    let r = guard_deadline(20.0, move || {
+        let (g, u, v): (BUint<N>, BInt<N>, BInt<N>) = arith_gcd::gcd_internal::<N, true>(&an, &bn);
+        let g2 = arith_gcd::big_gcd(&an, &bn);
+        json!({"g": dn(&g), "u": di(&u), "v": di(&v), "g2": dn(&g2)})
+    });
+    let mut alive = !matches!(&r, Err(e) if e["outcome"] == "timeout");
+    out.ev(merge(merge(base, Ok(witness(a, b))), r));
+    if !with_inv || !alive {
+        return alive;
+    }
+    for (n, p, nn, pn, tag) in [(a, b, an, bn, "ab"), (b, a, bn, an, "ba")] {
+        if *p <= Uint::ONE {
+            continue; // inv_mod requires a modulus; modulus 1 is degenerate
+        }
+        let base = json!({"op": "inv_mod", "case": format!("{}/{}", case, tag), "shape": sh, "N": N, "n": dn(n), "p": dn(p),
+                          "nd": n.to_string(), "pd": p.to_string()});
+        let r = guard_deadline(20.0, move || match arith_gcd::inv_mod(&nn, &pn) {
+            Ok(x) => json!({"ok": true, "r": dn(&x)}),
+            Err(d) => json!({"ok": false, "r": dn(&d)}),
+        });
+        alive &= !matches!(&r, Err(e) if e["outcome"] == "timeout");
+        out.ev(merge(merge(base, Ok(witness(n, p))), r));
+    }
+    alive
+}
+
+fn to_mint(x: &Uint) -> MInt {
+    let mut m = MInt::default();
+    m.0.copy_from_slice(&x.digits()[..8]);
+    m
+}
+
+pub fn run(args: &Args) -> i32 {
+    let seed = arg_u64(args, "seed", 1);
+    let reps = arg_u64(args, "reps", 1);
+    let shapes = read_ndjson(arg_str(args, "shapes", "shapes.ndjson"));
+    let mut out = Out::create(arg_str(args, "out", "trace.ndjson"));
+    let mut rng = rng_for(seed, "c09");
+    for (si, sh) in shapes.iter().enumerate() {
+        let n = sh["n"].as_u64().unwrap();
+        let wa = sh["wa"].as_u64().unwrap() as u32;
+        let wb = sh["wb"].as_u64().unwrap() as u32;
+        let rel = sh["rel"].as_str().unwrap();
+        let maxbits: u32 = if n == 8 { 500 } else { 1012 };
+        for rep in 0..reps {
+            let (a, b) = make_pair(&mut rng, rel, wa, wb, maxbits);
+            let case = format!("{}/{}", si, rep);
+            let alive = if n == 8 {
+                run_pair::<8>(&mut out, &case, sh, &a, &b, true)
+            } else {
+                run_pair::<16>(&mut out, &case, sh, &a, &b, true)
+            };
+            // the wrappers of the modular ring: odd modulus <= 500 bits, residue below it
+            if alive && n == 8 && (si + rep as usize) % 4 == 0 {
+                let (mut m, mut x) = if a >= b { (a, b) } else { (b, a) };
+                m |= Uint::ONE;
+                if m < Uint::from(3u64) {
+                    m = Uint::from(3u64);
+                }
+                if x >= m {
+                    x = rand_below(&mut rng, &m);
+                }
+                let w = witness(&m, &x);
+                let zn = match guard(|| ZmodN::new(m)) {
+                    Ok(z) => z,
+                    Err(e) => {
+                        out.ev(merge(json!({"op": "zn_inv", "case": format!("{}/zn", case), "shape": sh, "n": dn(&m), "a": dn(&x)}), Err(e)));
+                        continue;
+                    }
+                };
+                let base = json!({"op": "zn_inv", "case": format!("{}/zn", case), "shape": sh, "n": dn(&m), "a": dn(&x),
+                                  "nd": m.to_string(), "ad": x.to_string()});
+                let r = guard(|| {
+                    let i = zn.inv(to_mint(&x));
+                    json!({"some": i.is_some(), "r": dn(&i.map(Uint::from).unwrap_or(Uint::ZERO))})
+                });
+                out.ev(merge(merge(base, Ok(w.clone())), r));
+                let base = json!({"op": "zn_gcd", "case": format!("{}/zn", case), "shape": sh, "n": dn(&m), "a": dn(&x),
+                                  "nd": m.to_string(), "ad": x.to_string()});
+                let r = guard(|| json!({"g": dn(&zn.gcd(&to_mint(&x)))}));
+                out.ev(merge(merge(base, Ok(w)), r));
+            }
+        }
+    }
+    let n = out.finish();
+    println!("{}", json!({ "events": n }));
+    0
 }
